@@ -302,9 +302,23 @@ pub fn panic_site(msg: &str) -> String {
         let end = rest.find(' ').unwrap_or(rest.len());
         return format!("hook:{}", &rest[..end]);
     }
-    // strip numbers so that the key is a class, keep source location
-    let loc = msg.rsplit(" @ ").next().unwrap_or("");
-    let head: String = msg.chars().take(60).map(|c| if c.is_ascii_digit() { '#' } else { c }).collect();
-    let loc = loc.rsplit('/').next().unwrap_or(loc);
-    format!("panic:{}@{}", head.replace(' ', "_"), loc)
+    // strip numbers so that the key is a class; keep the source file (not the line) of the panic
+    let (head, loc) = match msg.rfind(" @ ") {
+        Some(i) => (&msg[..i], &msg[i + 3..]),
+        None => (msg, ""),
+    };
+    let mut h = String::new();
+    for c in head.chars() {
+        let c = if c.is_ascii_digit() { '#' } else if c == ' ' { '_' } else { c };
+        if c == '#' && h.ends_with('#') {
+            continue;
+        }
+        h.push(c);
+        if h.len() >= 56 {
+            break;
+        }
+    }
+    let file = loc.rsplit('/').next().unwrap_or(loc);
+    let file = file.split(':').next().unwrap_or(file);
+    format!("panic:{h}@{file}")
 }
